@@ -14,6 +14,7 @@ _reg('sshash', ['S4', 'D1', 'S1', 'S5'])
 _reg('vmloop', ['I8'])
 _reg('foot', ['F1'])
 _reg('frame', ['J3', 'J4'])
+_reg('portable', ['P1', 'P3', 'P4'])
 
 PROPS = {
  'C11': dict(level='other', lemmas=['B1', 'B2', 'B3', 'B4', 'B5'],
@@ -67,5 +68,8 @@ PROPS = {
    explanation='TODO', trusted=[], outside=[]),
  'C06': dict(level='other', lemmas=['I1', 'J1', 'I8', 'I7', 'D1', 'D2', 'A5', 'B2', 'B3', 'H1', 'S4', 'G4'],
    files=['src/common.hpp', 'src/bytecode_machine.hpp', 'src/bytecode_machine.cpp', 'src/vm_interpreted.cpp', 'src/virtual_machine.cpp', 'src/jit_compiler_x86.cpp', 'src/jit_compiler_x86_static.S', 'src/dataset.cpp', 'src/randomx.cpp'],
+   explanation='TODO', trusted=[], outside=[]),
+ 'C17': dict(level='other', lemmas=['P1', 'P3', 'P4'],
+   files=['src/intrin_portable.h', 'src/instructions_portable.cpp', 'src/randomx.cpp', 'src/blake2/endian.h', 'src/bytecode_machine.hpp', 'src/soft_aes.cpp'],
    explanation='TODO', trusted=[], outside=[]),
 }
